@@ -813,6 +813,7 @@ def find_external_attr(file_ast: FortranAST, name: str, new_var: Variable) -> bo
         # We do this once
         if counter == 0:
             v.desc = new_var.desc
+            v.kind = new_var.kind
             # The typed declaration carries the attributes (OPTIONAL, ...)
             v.keywords = list(new_var.keywords)
             v.keyword_info = new_var.keyword_info
